@@ -10,7 +10,7 @@ from checks.c04 import consts as aconsts
 MODES = [("assert", []), ("ndebug", ["-DNDEBUG"]), ("disabled", ["-DBOOST_MULTI_ASSERT_DISABLE"])]
 ASSIGN_KINDS = ["assign_%s_%s_%s" % (m, src, dst) for m in ("longer", "shorter") for src in ("array", "view", "rview", "crview", "oview") for dst in ("lv", "rv")]
 SWAPPED_KINDS = ["assign_swapped_%s_%s" % (src, dst) for src in ("array", "view", "rview", "crview", "oview") for dst in ("lv", "rv")]
-BAD_KINDS = ["index", "deep_index", "call_first", "call_last"] + ASSIGN_KINDS + SWAPPED_KINDS   # slicing out of range is not among the stops the property promises (the 1-D sliced has no assertion)
+BAD_KINDS = ["index", "index_far_up", "index_far_down", "deep_index", "call_first", "call_last"] + ASSIGN_KINDS + SWAPPED_KINDS   # slicing out of range is not among the stops the property promises (the 1-D sliced has no assertion)
 
 
 def strip(o):
